@@ -20,6 +20,6 @@ if [ -n "$demo" ]; then
   CMINX_SRC=$d/src CMINX_REPO=$d $demo >/dev/null 2>&1; echo "demo with change: exit $?"
 fi
 for c in "$@"; do
-  out=$(CMINX_SRC=$d/src CMINX_REPO=$d /verif/bin/check $c --tier quick 2>&1 | grep -E "^C[0-9]+ quick|MACHINERY" | tail -1)
+  out=$(VERIF_OUT=$d/_verif_out CMINX_SRC=$d/src CMINX_REPO=$d /verif/bin/check $c --tier quick 2>&1 | grep -E "^C[0-9]+ quick|MACHINERY" | tail -1)
   echo "CHECK $c: $out"
 done
